@@ -276,55 +276,56 @@ class Parser:
         t2 = self._assert_and_cunsume(TokenType.BRACKET_RIGHT)
         node.tokens.append(t2)
 
-        t3 = self._assert_and_cunsume(TokenType.BRACKET_LEFT)
-        node.tokens.append(t3)
-
         self._parse_subtree(node)
         root.add_child(node)
 
     def _parse_subtree(self, root: ASTNode) -> None:
-        flag = True  # flag to check if the brachet_left can be consumed
+        """Parse the points of a tree, up to the bracket that closes it.
+
+        A split `( ... | ... )` consumes both of its own brackets: the
+        node it hangs on is kept on a stack while its alternatives are
+        read, so splits can be nested to any depth without recursion.
+        """
+        splits: list[ASTNode] = []  # nodes carrying the splits still open
         current = root
         while (token := self.next_token) is not None:
             match token.type:
                 case TokenType.BRACKET_LEFT:
                     self._read_token()
-                    if flag:
-                        flag = False
-                    else:
-                        self._parse_subtree(current)
+                    current.tokens.append(token)
+                    if (head := self.next_token) is None:
+                        break  # premature end, reported by the caller
 
-                case TokenType.BRACKET_RIGHT:
-                    break
-
-                case TokenType.FLOAT:
-                    current = self._parse_node(current)
-                    flag = True
-
-                case TokenType.LITERAL:
-                    match str.upper(token.value):
-                        case "COLOR":
+                    match head.type:
+                        case TokenType.FLOAT:
+                            current = self._parse_node(current)
+                        case TokenType.LITERAL:
+                            if str.upper(head.value) != "COLOR":
+                                raise LiteralTokenError(head, "COLOR")
                             self._parse_color(current)
                         case _:
-                            raise LiteralTokenError(token, "COLOR")
-
-                    flag = True
+                            splits.append(current)  # a split starts here
 
                 case TokenType.OR:
-                    current = root
+                    if len(splits) == 0:
+                        raise TokenTypeError(token, "BRACKET_LEFT, BRACKET_RIGHT")
                     self._read_token()
-                    flag = True
+                    current = splits[-1]
+                    current.tokens.append(token)
+
+                case TokenType.BRACKET_RIGHT:
+                    if len(splits) == 0:
+                        break  # closes the tree, consumed by the caller
+                    self._read_token()
+                    current = splits.pop()
+                    current.tokens.append(token)
 
                 case TokenType.COMMENT:
                     self._parse_comment(current)
 
                 case _:
-                    excepted = (
-                        "BRACKET_LEFT, BRACKET_RIGHT, LITERAL, FLOAT, OR, COMMENT"
-                    )
+                    excepted = "BRACKET_LEFT, BRACKET_RIGHT, OR, COMMENT"
                     raise TokenTypeError(token, excepted)
-
-            current.tokens.append(token)
 
     def _parse_node(self, root: ASTNode) -> ASTNode:
         # FLOAT FLOAT FLOAT FLOAT )
